@@ -22,6 +22,8 @@ PROP["lean_modules"] += _SM["C07"]
 PROP["rule"] += " || v1: " + _SR
 PROP["assumptions"] = list(PROP["assumptions"]) + _SA
 
+PROP["lean_modules"].append("ConduitModel.Props.MonSound")
+
 META = {
     "text": "Lean 4 theorems, for every window size, threshold, outcome history and batch partition: the v1 ring buffer refines the abstract 'last size outcomes' specification (C07_window_refines), v2 batches decide exactly as v1 record-by-record (C07_v1_v2_same_decisions), size 0 removes the limit, threshold 0 tolerates none, refusal is sticky; under fan-out every position is released at most once and a nack vote on a non-terminal position wins (C07_ma_nack_once, C07_ma_nack_wins). Tied to the real dlqWindow of both engines by differential runs, to the API's config guards by regenerated facts, and the pipeline-level clauses (DLQ exactly once, ack only after confirmed DLQ write, DLQ in source order) by the C07 monitor on funnel traces. v2 worker level: C07_nack_log_shape, _dlq_then_ack, _failed_dlq_write_never_acks, _window_refusal_stops, _dlq_record_is_original (all states, scripts, windows). v1: C07_v1_dlq_once_in_source_order, _dlq_then_ack, _failed_dlq_write_never_acks, _rejected_unacked for the product model.",
     "note": 'Window clause: full. Pipeline-level clauses for v2: PARTIAL: the composition of these leaf theorems with the task recursion of Worker.doTaskAttempt/doNextTask (whole-pass statement) is validated by equality of event logs against the executable Lean model and by the Lean-defined trace monitor on every implementation trace (serial fan-out orders, real concurrent fan-out, several sources into one shared sink), not proved. v1 (default engine) part: Props/*Stream when merged. Trusted: Lean kernel, factgen, harness/fakes, Go runtime.',
